@@ -34,6 +34,8 @@ type Deviation struct {
 	Err error // returned instead of the truthful result (for PrimaryInfo: ErrNoPrimary etc.)
 	// StaleInfo, for PrimaryInfo: answer with this info although the truth differs.
 	StaleInfo *litefs.PrimaryInfo
+	// EmptyClusterID, for ClusterID: answer "no cluster ID stored" although one is (the key was wiped; the static leaser always answers so).
+	EmptyClusterID bool
 }
 
 // LeaseCall is one recorded call to the lease service.
@@ -197,6 +199,11 @@ func (l *SimLeaser) ClusterID(ctx context.Context) (string, error) {
 		l.Svc.record(l.Node, "ClusterID", "", "scripted:"+dev.Err.Error())
 		l.Svc.mu.Unlock()
 		return "", dev.Err
+	} else if ok && dev.EmptyClusterID {
+		l.Svc.mu.Lock()
+		l.Svc.record(l.Node, "ClusterID", "", "scripted:empty")
+		l.Svc.mu.Unlock()
+		return "", nil
 	}
 	s := l.Svc
 	s.mu.Lock()
